@@ -7,6 +7,9 @@ pub enum Quote {
     PlainSafe,
     Single,
     Double,
+    /// block scalars `|-` / `>-` for string values of block mappings (where expressible), else double quotes
+    Literal,
+    Folded,
 }
 
 #[derive(Clone, Debug)]
@@ -25,7 +28,7 @@ impl Layout {
         Layout { kind, indent: 2, quote: Quote::PlainSafe, doc_start: false, comments: false, blank_lines: false, wrap: false, quote_keys: false }
     }
     pub fn name(&self) -> String {
-        format!("{}{}{}{}{}{}{}", self.kind, if self.kind == "block" || self.kind == "json-pretty" { format!("-i{}", self.indent) } else { String::new() }, match self.quote { Quote::PlainSafe => "", Quote::Single => "-sq", Quote::Double => "-dq" }, if self.doc_start { "-doc" } else { "" }, if self.comments { "-cmt" } else { "" }, if self.blank_lines { "-blank" } else { "" }, if self.wrap { "-wrap" } else { "" }) + if self.quote_keys { "-qk" } else { "" }
+        format!("{}{}{}{}{}{}{}", self.kind, if self.kind == "block" || self.kind == "json-pretty" { format!("-i{}", self.indent) } else { String::new() }, match self.quote { Quote::PlainSafe => "", Quote::Single => "-sq", Quote::Double => "-dq", Quote::Literal => "-lit", Quote::Folded => "-fold" }, if self.doc_start { "-doc" } else { "" }, if self.comments { "-cmt" } else { "" }, if self.blank_lines { "-blank" } else { "" }, if self.wrap { "-wrap" } else { "" }) + if self.quote_keys { "-qk" } else { "" }
     }
 }
 
@@ -74,6 +77,11 @@ fn plain_safe_word(s: &str) -> bool {
 pub fn yaml_str(s: &str, q: Quote) -> String {
     match q {
         Quote::PlainSafe if plain_safe_word(s) => s.to_string(),
+        Quote::Literal | Quote::Folded => {
+            let mut o = String::new();
+            json_str(s, &mut o);
+            o
+        }
         Quote::Single if !s.contains('\n') && !s.chars().any(|c| (c as u32) < 0x20) => format!("'{}'", s.replace('\'', "''")),
         _ => {
             let mut o = String::new();
@@ -166,6 +174,13 @@ fn block(w: &mut W, v: &V, l: &Layout, path: &str, depth: usize, inline_first: b
                     V::List(ll) if !ll.is_empty() => {
                         w.push("\n");
                         block(w, x, l, &ptr(path, k), depth + 1, false);
+                    }
+                    V::Str(sv) if matches!(l.quote, Quote::Literal | Quote::Folded) && !sv.is_empty() && !sv.starts_with(' ') && !sv.ends_with(' ') && !sv.contains('\n') && !sv.chars().any(|c| (c as u32) < 0x20) => {
+                        w.push(if l.quote == Quote::Literal { " |-\n" } else { " >-\n" });
+                        w.push(&" ".repeat((depth + 1) * l.indent));
+                        w.mark(&ptr(path, k));
+                        w.push(sv);
+                        w.push("\n");
                     }
                     other => {
                         w.push(" ");
@@ -332,6 +347,11 @@ pub fn layouts_c11() -> Vec<Layout> {
             b.indent = indent;
             out.push(b);
         }
+    }
+    for q in [Quote::Literal, Quote::Folded] {
+        let mut b = Layout::new("block");
+        b.quote = q;
+        out.push(b);
     }
     let mut qk = Layout::new("block");
     qk.quote_keys = true;
